@@ -456,6 +456,10 @@ func (n *Net) Settle() bool {
 }
 
 // Build creates k nodes with the given adjacency (adversary = index of the harness-played position or -1).
+// CacheMB, when a node index is present, gives that node's awaiting cache the stated hard size limit in MB instead of
+// 256 (the cache has 1024 shards, so 1 MB means that no entry above 1 KB fits). Read by Build.
+var CacheMB = map[int]int{}
+
 func Build(k int, adj [][]int, adversary int) (*Net, error) {
 	ctx, stop := context.WithCancel(context.Background())
 	n := &Net{Adj: adj, Keys: map[string]ed25519.PublicKey{}, AddrIdx: map[string]int{}, ctx: ctx, stop: stop}
@@ -484,7 +488,11 @@ func Build(k int, adj [][]int, adversary int) (*Net, error) {
 		if err != nil {
 			return nil, err
 		}
-		vn.Cache, err = cache.New(800, 256)
+		mb := 256
+		if v, ok := CacheMB[i]; ok {
+			mb = v
+		}
+		vn.Cache, err = cache.New(800, mb)
 		if err != nil {
 			return nil, err
 		}
